@@ -158,6 +158,115 @@ def time_courses(draw, mode=None, tier="quick"):
     return spec
 
 
+# --- crowds: many droplets per frame (counts beyond block sizes, pre-selection thresholds, small integer types) -------------
+CROWD_LADDER = {"quick": [33, 40, 70, 130, 260], "thorough": [33, 40, 70, 130, 260, 520]}
+CROWD_LADDER_FAST = {"quick": [1100, 1300], "thorough": [1100, 1300, 2300, 4400]}  # (5-20 % of the droplets are absent from a frame)  # distance matching without a grid only
+
+
+@st.composite
+def crowd_specs(draw, tier="quick"):
+    """compact description of an identity-preserving motion history of many droplets; expanded by expand_crowd"""
+    method = draw(st.sampled_from(["overlap", "distance"]))
+    has_grid = draw(st.booleans())
+    ladder = list(CROWD_LADDER[tier])
+    if method == "distance" and not has_grid:
+        ladder += CROWD_LADDER_FAST[tier]
+    n = draw(st.sampled_from(ladder))
+    dim = draw(st.sampled_from([1, 2, 2, 3])) if n <= 600 else 2
+    spec = {
+        "mode": "crowd",
+        "dim": dim,
+        "n": n,
+        "seed": draw(st.integers(0, 10**6)),
+        "nframes": draw(st.integers(2, 4 if n <= 300 else 3)),
+        "has_grid": has_grid,
+        "periodic": [draw(st.booleans()) or draw(st.booleans()) for _ in range(dim)] if has_grid else [False] * dim,
+        "method": method,
+        "max_dist": draw(st.sampled_from([None, "inf", 0.5, 2.0])) if method == "distance" else None,  # in units of the site spacing
+        "p_absent": draw(st.sampled_from([0.0, 0.05, 0.2])),
+        "site_spacing": gen.r6(10 ** draw(st.floats(-1, 1, **finite))),
+    }
+    return spec
+
+
+def crowd_jobs(tier):
+    """a fixed sweep over the count ladder x method x grid, so that every size class is visited in every run"""
+    jobs = []
+    for method in ("overlap", "distance"):
+        for has_grid in (False, True):
+            ladder = list(CROWD_LADDER[tier]) + (CROWD_LADDER_FAST[tier] if method == "distance" and not has_grid else [])
+            for n in ladder:
+                for seed in range(2):
+                    jobs.append({"domain": "crowd-ladder", "crowd": True, "n": n, "method": method, "has_grid": has_grid, "seed": seed})
+    return jobs
+
+
+def crowd_job_spec(job):
+    n, seed = job["n"], job["seed"]
+    dim = 2 if n > 40 else [1, 2, 3][(n + seed) % 3]
+    return {
+        "mode": "crowd",
+        "dim": dim,
+        "n": n,
+        "seed": 7919 * seed + n,
+        "nframes": 3,
+        "has_grid": job["has_grid"],
+        "periodic": [True] * dim if job["has_grid"] else [False] * dim,
+        "method": job["method"],
+        "max_dist": [None, 0.5][seed % 2] if job["method"] == "distance" else None,
+        "p_absent": 0.05,
+        "site_spacing": [1.0, 0.37][seed % 2],
+    }
+
+
+def expand_crowd(c):
+    """the full time-course spec (mode 'motion') of a crowd description - a pure function of it"""
+    rng = np.random.default_rng([c["n"], c["seed"]])
+    dim, n, s = c["dim"], c["n"], c["site_spacing"]
+    m = int(np.ceil((1.15 * n) ** (1.0 / dim))) + 1
+    periodic = list(c["periodic"])
+    origin = [gen.r6(s * float(rng.integers(-3, 4))) for _ in range(dim)]
+    L = [s * m] * dim
+    sites = list(itertools.product(range(m), repeat=dim))
+    chosen = [sites[i] for i in rng.permutation(len(sites))[:n]]
+    radii = {site: s * float(rng.uniform(0.2, 0.29)) for site in chosen}
+    v = [s * float(rng.uniform(-0.1, 0.1)) / np.sqrt(dim) if periodic[a] else 0.0 for a in range(dim)]
+    frames, ids = [], []
+    # along periodic axes the whole lattice is displaced by an arbitrary amount, so that some droplets sit next to (and move across)
+    # the periodic boundary
+    drift = np.array([float(rng.uniform(0, L[a])) if periodic[a] else 0.0 for a in range(dim)])
+    for _k in range(c["nframes"]):
+        fr, fid = [], []
+        for site in chosen:
+            jit = s * rng.uniform(-0.12, 0.12, dim) / np.sqrt(dim)
+            if rng.random() < c["p_absent"]:
+                continue
+            pos = np.array(origin) + (np.array(site) + 0.5) * s + jit + drift
+            for a in range(dim):
+                if periodic[a] and rng.random() < 0.5:  # stored wrapped into the box
+                    pos[a] = origin[a] + (pos[a] - origin[a]) % L[a]
+            fr.append({"cls": "SphericalDroplet", "position": [gen.r6(float(x)) for x in pos], "radius": gen.r6(radii[site] * float(rng.uniform(0.97, 1.0)))})
+            fid.append(list(site))
+        # the order within a frame carries no meaning: shuffle it, so that identities are not aligned with list positions
+        perm = rng.permutation(len(fr))
+        frames.append([fr[i] for i in perm])
+        ids.append([fid[i] for i in perm])
+        drift = drift + np.array(v)
+    md = c["max_dist"]
+    return {
+        "mode": "motion",
+        "crowd": n,
+        "dim": dim,
+        "site_spacing": s,
+        "grid": {"origin": origin, "shape": [m] * dim, "spacing": [s] * dim, "periodic": periodic} if c["has_grid"] else None,
+        "times": [gen.r6(0.5 * k - 1.0) for k in range(c["nframes"])],
+        "frames": frames,
+        "ids": ids,
+        "method": c["method"],
+        "max_dist": md if md in (None, "inf") else gen.r6(float(md) * s),
+    }
+
+
 # --- exhaustive 1-D lattice -----------------------------------------------------------------
 def lattice_jobs(nsites, nframes=3):
     jobs = []
@@ -256,8 +365,13 @@ def snapshot(etc):
 
 
 def frame_has_overlap(frame, geom, tol):
-    for a, b in itertools.combinations(frame, 2):
-        if geom.dist(a["position"], b["position"]) < a["radius"] + b["radius"] + tol:
+    if len(frame) < 2:
+        return False
+    P = np.array([d["position"] for d in frame], float)
+    R = np.array([d["radius"] for d in frame], float)
+    for i in range(len(frame) - 1):
+        dd = np.linalg.norm(geom.min_image(P[i] - P[i + 1 :]), axis=1)
+        if np.any(dd < R[i] + R[i + 1 :] + tol):
             return True
     return False
 
